@@ -9,12 +9,14 @@ impl Scenario for C20S {
         "C20"
     }
     fn variants(&self) -> &'static [&'static str] {
-        &["asy"]
+        &["asy", "asyhook"]
     }
-    fn count(&self, tier: Tier, _variant: &str) -> u64 {
-        match tier {
-            Tier::Quick => 24_000,
-            Tier::Thorough => 800_000,
+    fn count(&self, tier: Tier, variant: &str) -> u64 {
+        match (tier, variant) {
+            (Tier::Quick, "asy") => 24_000,
+            (Tier::Quick, _) => 30_000,
+            (Tier::Thorough, "asy") => 800_000,
+            (Tier::Thorough, _) => 300_000,
         }
     }
     fn rule(&self) -> &'static str {
@@ -52,7 +54,7 @@ impl Scenario for C20S {
                 })
             })
             .collect();
-        if r.chance(1, 4) {
+        if r.chance(if _variant == "asyhook" { 3 } else { 1 }, 4) {
             // focused family: few streams converted from two threads back to back while traffic for
             // an already parked consumer is in flight - the window in which a wake-up for the routing
             // thread can be coalesced with, or overtaken by, another conversion
